@@ -5,6 +5,7 @@ import (
 	"errors"
 	"fmt"
 	"path/filepath"
+	"strings"
 	"sync"
 	"testing"
 	"time"
@@ -24,8 +25,10 @@ import (
 // C11Plan: a history, channel behaviours and injected store failures.
 type C11Plan struct {
 	Hist     *hist.Plan `json:"hist"`
-	Channels []string   `json:"channels"` // ok | slow | block | wsok | wserr | webhook
-	FailAt   []int      `json:"failAt"`   // write indices (1-based) that fail
+	Channels []string   `json:"channels"` // ok | slow | block | wsok | wserr | webhook | deadwebhook
+	// "deadwebhook" (only together with "webhook"): another webhook, registered BEFORE the healthy one, whose target always
+	// answers 500; with max_tries = 1 it is switched off by the first event - the healthy webhook must keep receiving
+	FailAt []int `json:"failAt"` // write indices (1-based) that fail
 }
 
 type evRec struct {
@@ -121,8 +124,16 @@ func runC11(p *C11Plan) (*stats.Case, error) {
 	for _, k := range p.FailAt {
 		failSet[k] = true
 	}
-	sc := &scriptedClient{next: func() int { return 0 }}
-	r, err := hist.NewRig(c11Dir, p.Hist, stack.Options{DBFile: dbName, WebhookClient: sc, WrapHeaders: func(h repository.Headers) repository.Headers { ip = interpose.Wrap(h); return ip }})
+	sc := &scriptedClient{next: func() int { return 0 }, byURL: func(u string) (int, bool) { return 3, strings.HasSuffix(u, "/dead") }}
+	withDead := false
+	for _, c := range p.Channels {
+		withDead = withDead || c == "deadwebhook"
+	}
+	maxTries := 0
+	if withDead {
+		maxTries = 1
+	}
+	r, err := hist.NewRig(c11Dir, p.Hist, stack.Options{DBFile: dbName, WebhookClient: sc, MaxTries: maxTries, WrapHeaders: func(h repository.Headers) repository.Headers { ip = interpose.Wrap(h); return ip }})
 	if err != nil {
 		return nil, fmt.Errorf("infra: %w", err)
 	}
@@ -153,6 +164,11 @@ func runC11(p *C11Plan) (*stats.Case, error) {
 		case "webhook":
 			if !hasWebhook {
 				hasWebhook = true
+				if withDead {
+					if _, err := r.S.Services.Webhooks.CreateWebhook("bearer", "", "t", "http://hook.invalid/dead"); err != nil {
+						return nil, fmt.Errorf("infra: %w", err)
+					}
+				}
 				if _, err := r.S.Services.Webhooks.CreateWebhook("bearer", "", "t", "http://hook.invalid/c11"); err != nil {
 					return nil, fmt.Errorf("infra: %w", err)
 				}
@@ -242,7 +258,13 @@ func runC11(p *C11Plan) (*stats.Case, error) {
 		}
 		if hasWebhook {
 			sc.mu.Lock()
-			upd(len(sc.calls))
+			n := 0
+			for _, c := range sc.calls {
+				if !strings.HasSuffix(c.URL, "/dead") {
+					n++
+				}
+			}
+			upd(n)
 			sc.mu.Unlock()
 		}
 		if min == 1<<30 {
@@ -306,7 +328,12 @@ func runC11(p *C11Plan) (*stats.Case, error) {
 		calls := append([]whCall{}, sc.calls...)
 		sc.mu.Unlock()
 		var got []evRec
+		deadCalls := 0
 		for _, c := range calls {
+			if strings.HasSuffix(c.URL, "/dead") {
+				deadCalls++
+				continue
+			}
 			var e domains.HeaderEvent
 			if err := json.Unmarshal([]byte(c.Body), &e); err != nil {
 				return nil, fmt.Errorf("webhook body unparsable: %s", c.Body)
@@ -318,12 +345,17 @@ func runC11(p *C11Plan) (*stats.Case, error) {
 			got = append(got, rr)
 		}
 		if err := check("webhook", got, nil); err != nil {
+			if withDead {
+				return nil, fmt.Errorf("%w (another webhook, registered earlier, was switched off after its first failure; it was called %d times)", err, deadCalls)
+			}
 			return nil, err
 		}
+		// (how often the failing webhook itself is called is C12's subject - and events delivered concurrently may reach it
+		// before its first failure is recorded)
 	}
 	tr := model.NewTree(hist.Genesis())
 	cl := map[string]int64{"plans": 1, "stored": int64(len(expected)), "duplicates": int64(dups), "forbidden": int64(forb), "failed_stores": int64(failed),
-		"with_blocking_channel": b2i(hasBlock), "with_failing_channel": b2i(hasFailing), "with_webhook_channel": b2i(hasWebhook), "channels": int64(len(p.Channels))}
+		"with_blocking_channel": b2i(hasBlock), "with_failing_channel": b2i(hasFailing), "with_webhook_channel": b2i(hasWebhook), "with_dead_webhook_registered_first": b2i(hasWebhook && withDead), "channels": int64(len(p.Channels))}
 	_ = tr
 	nt := (dups > 0 || forb > 0 || failed > 0) && (hasBlock || hasFailing)
 	return &stats.Case{Sig: stats.Sig(planSig(p.Hist), fmt.Sprint(p.Channels), fmt.Sprint(p.FailAt)), Nontrivial: nt, Classes: cl, Sample: p}, nil
@@ -336,7 +368,7 @@ var propC11 = Prop[*C11Plan]{
 		p := &C11Plan{Hist: hist.Gen(t, hist.GenOpts{MaxSpecs: quickThorough(20, 40), MinSpecs: 2})}
 		n := rapid.IntRange(2, 5).Draw(t, "nch")
 		for i := 0; i < n; i++ {
-			p.Channels = append(p.Channels, rapid.SampledFrom([]string{"ok", "ok", "slow", "block", "wsok", "wserr", "webhook"}).Draw(t, "ch"))
+			p.Channels = append(p.Channels, rapid.SampledFrom([]string{"ok", "ok", "slow", "block", "wsok", "wserr", "webhook", "webhook", "deadwebhook"}).Draw(t, "ch"))
 		}
 		nf := rapid.IntRange(0, 2).Draw(t, "nfail")
 		for i := 0; i < nf; i++ {
